@@ -106,10 +106,8 @@ def isOp (rt : RT) (op : COp) : Bool := rt.client.pc = .next && headOp rt = some
 
 def isStartAt (pc : CPc) : Option Nat := match pc with | .startAt s => some s | _ => none
 
-/-- all actions of the client; `say` lines are what the harness prints when a call returns -/
-def clientActs : List (Act RT) :=
-  -- the program counter carries its arguments; actions are given as functions of them and instantiated below
-  let forS (f : Nat → List (Act RT)) : List (Act RT) := f 0 ++ f 1 ++ f 2
+/-- actions that do not depend on a stream index (or read it from the program counter) -/
+def clientBase : List (Act RT) :=
   [ -- ---- fetch the next call ----
     { name := "cl.end", guard := fun rt => rt.client.pc = .next && rt.client.prog.isEmpty, upd := fun rt => setPc rt .done },
     { name := "cl.start", guard := fun rt => isOp rt .start, upd := fun rt => setPc (popOp rt) (.startAt 0) },
@@ -120,34 +118,6 @@ def clientActs : List (Act RT) :=
     { name := "cl.state", guard := fun rt => isOp rt .state, upd := fun rt => popOp (getState rt),
       out := fun rt => [s!"API state -> {(getState rt).state.name}"] }
   ] ++
-  forS (fun s => [
-    -- ---- acquire_map_read ----
-    { name := "cl.map.mapped", guard := fun rt => isOp rt (.map s) && monMapped rt s, upd := fun rt => popOp rt,
-      out := fun _ => [s!"API map {s} -> err"] },
-    { name := "cl.map", guard := fun rt => isOp rt (.map s) && !monMapped rt s, upd := fun rt => setPc (popOp rt) (.mapLock s) },
-    { name := "cl.map.body.moved", guard := fun rt => atPc rt (.mapLock s) && sinkLockFree (getS rt s) && mapMoved rt s,
-      upd := fun rt => { (modS rt s fun st => { st with sinkCh := (mapRead rt s).1, monReg := true }) with
-                          client := { rt.client with pc := .mapNotify s, monLen := rt.client.monLen.set s (outLen (mapRead rt s).2),
-                                                     pendingSay := mapLine rt s } } },
-    { name := "cl.map.body", guard := fun rt => atPc rt (.mapLock s) && sinkLockFree (getS rt s) && !mapMoved rt s,
-      upd := fun rt => { (modS rt s fun st => { st with sinkCh := (mapRead rt s).1, monReg := true }) with
-                          client := { rt.client with pc := .afterMap s, monLen := rt.client.monLen.set s (outLen (mapRead rt s).2) } },
-      out := fun rt => [mapLine rt s] },
-    { name := "cl.map.notify", guard := fun rt => atPc rt (.mapNotify s), upd := fun rt => setPc (modS rt s notifySink) (.afterMap s),
-      out := fun rt => [rt.client.pendingSay] },
-    -- after the map: an ordinary call returns; `monwait` unmaps everything (if anything) and sleeps
-    { name := "cl.map.ret", guard := fun rt => atPc rt (.afterMap s) && !rt.client.inMonwait, upd := fun rt => setPc rt .next },
-    { name := "cl.monwait.unmap", guard := fun rt => atPc rt (.afterMap s) && rt.client.inMonwait && decide (rt.client.monLen.getD s 0 > 0),
-      upd := fun rt => setPc rt (.unmapLock s (rt.client.monLen.getD s 0)) },
-    { name := "cl.monwait.empty", guard := fun rt => atPc rt (.afterMap s) && rt.client.inMonwait && decide (rt.client.monLen.getD s 0 = 0),
-      upd := fun rt => setPc rt (.sleeping 1), out := fun _ => [s!"API unmap {s} 0 -> ok"] },
-    -- ---- monwait: while (state == Running) { map; unmap all; sleep } ----
-    { name := "cl.monwait.go", guard := fun rt => isOp rt (.monwait s) && (getState rt).state = .running,
-      upd := fun rt => { (getState rt) with client := { rt.client with pc := .mapLock s, inMonwait := true } } },
-    { name := "cl.monwait.end", guard := fun rt => isOp rt (.monwait s) && (getState rt).state ≠ .running,
-      upd := fun rt => { (popOp (getState rt)) with client := { (popOp (getState rt)).client with inMonwait := false } },
-      out := fun rt => [s!"API monwait {s} -> {(getState rt).state.name}"] }
-  ]) ++
   [ -- ---- acquire_unmap_read (one action per stream and argument form is generated by `unmapActs`) ----
     { name := "cl.unmap.notmapped",
       guard := fun rt => rt.client.pc = .next && (match headOp rt with | some (.unmap s _) => !monMapped rt s | _ => false),
@@ -182,8 +152,40 @@ def clientActs : List (Act RT) :=
       upd := fun rt => match headOp rt with
         | some (.configure a b) => { (popOp rt) with client := { (popOp rt).client with pc := .cfgAt 0, cfgN := [a, b] } }
         | _ => rt }
-  ] ++
-  forS (fun s => [
+  ]
+
+/-- actions of the client concerning stream `s` -/
+def clientPerStream (s : Nat) : List (Act RT) :=
+  [
+    -- ---- acquire_map_read ----
+    { name := "cl.map.mapped", guard := fun rt => isOp rt (.map s) && monMapped rt s, upd := fun rt => popOp rt,
+      out := fun _ => [s!"API map {s} -> err"] },
+    { name := "cl.map", guard := fun rt => isOp rt (.map s) && !monMapped rt s, upd := fun rt => setPc (popOp rt) (.mapLock s) },
+    { name := "cl.map.body.moved", guard := fun rt => atPc rt (.mapLock s) && sinkLockFree (getS rt s) && mapMoved rt s,
+      upd := fun rt => { (modS rt s fun st => { st with sinkCh := (mapRead rt s).1, monReg := true }) with
+                          client := { rt.client with pc := .mapNotify s, monLen := rt.client.monLen.set s (outLen (mapRead rt s).2),
+                                                     pendingSay := mapLine rt s } } },
+    { name := "cl.map.body", guard := fun rt => atPc rt (.mapLock s) && sinkLockFree (getS rt s) && !mapMoved rt s,
+      upd := fun rt => { (modS rt s fun st => { st with sinkCh := (mapRead rt s).1, monReg := true }) with
+                          client := { rt.client with pc := .afterMap s, monLen := rt.client.monLen.set s (outLen (mapRead rt s).2) } },
+      out := fun rt => [mapLine rt s] },
+    { name := "cl.map.notify", guard := fun rt => atPc rt (.mapNotify s), upd := fun rt => setPc (modS rt s notifySink) (.afterMap s),
+      out := fun rt => [rt.client.pendingSay] },
+    -- after the map: an ordinary call returns; `monwait` unmaps everything (if anything) and sleeps
+    { name := "cl.map.ret", guard := fun rt => atPc rt (.afterMap s) && !rt.client.inMonwait, upd := fun rt => setPc rt .next },
+    { name := "cl.monwait.unmap", guard := fun rt => atPc rt (.afterMap s) && rt.client.inMonwait && decide (rt.client.monLen.getD s 0 > 0),
+      upd := fun rt => setPc rt (.unmapLock s (rt.client.monLen.getD s 0)) },
+    { name := "cl.monwait.empty", guard := fun rt => atPc rt (.afterMap s) && rt.client.inMonwait && decide (rt.client.monLen.getD s 0 = 0),
+      upd := fun rt => setPc rt (.sleeping 1), out := fun _ => [s!"API unmap {s} 0 -> ok"] },
+    -- ---- monwait: while (state == Running) { map; unmap all; sleep } ----
+    { name := "cl.monwait.go", guard := fun rt => isOp rt (.monwait s) && (getState rt).state = .running,
+      upd := fun rt => { (getState rt) with client := { rt.client with pc := .mapLock s, inMonwait := true } } },
+    { name := "cl.monwait.end", guard := fun rt => isOp rt (.monwait s) && (getState rt).state ≠ .running,
+      upd := fun rt => { (popOp (getState rt)) with client := { (popOp (getState rt)).client with inMonwait := false } },
+      out := fun rt => [s!"API monwait {s} -> {(getState rt).state.name}"] }
+  ]
+  ++
+  [
     { name := "cl.unmap.notify", guard := fun rt => atPc rt (.unmapNotify s), upd := fun rt => setPc (modS rt s notifySink) (.afterUnmap s),
       out := fun rt => [rt.client.pendingSay] },
     { name := "cl.unmap.ret", guard := fun rt => atPc rt (.afterUnmap s) && !rt.client.inMonwait, upd := fun rt => setPc rt .next },
@@ -262,9 +264,11 @@ def clientActs : List (Act RT) :=
       upd := fun rt => setPc (modS rt s notifySink) (.abortAt (s + 1)),
       out := fun rt => if (getS rt s).cam.state = .running then [s!"DRV {camDev s} trigger -> ok"] else [] },
     { name := "cl.acc.notify.stop", guard := fun rt => atPc rt (.accNotify s 2), upd := fun rt => setPc (modS rt s notifySink) (.flushAt s 2) }
-  ]) ++
-  -- flush_reader for the filter's (2), the sink's (0) and the monitor's (1) reader of stream s
-  forS (fun s => ([2, 0, 1] : List Nat).flatMap fun r => [
+  ]
+
+/-- `flush_reader` for reader `r` of stream `s`: 2 = the filter's on `filter.in`, 0 = the sink's and 1 = the monitor's on `sink.in` -/
+def clientFlush (s r : Nat) : List (Act RT) :=
+  [
     -- the monitor is flushed only if registered; a region the client still has mapped is released first
     { name := "cl.flush.skip", guard := fun rt => atPc rt (.flushAt s r) && r = 1 && !(getS rt s).monReg, upd := fun rt => setPc rt (.flushed s r) },
     { name := "cl.flush.pre", guard := fun rt => atPc rt (.flushAt s r) && r = 1 && monMapped rt s, upd := fun rt => setPc rt (.flushUnmapLock s r true) },
@@ -288,7 +292,12 @@ def clientActs : List (Act RT) :=
     -- next reader (2 → 0 → 1), then the next stream
     { name := "cl.flushed", guard := fun rt => atPc rt (.flushed s r),
       upd := fun rt => setPc rt (if r = 2 then .flushAt s 0 else if r = 0 then .flushAt s 1 else .stopAt (s + 1)) }
-  ])
+  ]
+
+/-- all actions of the client; the output lines are what the harness prints when a call returns -/
+def clientActs : List (Act RT) :=
+  clientBase ++ ([0, 1, 2] : List Nat).flatMap clientPerStream ++
+  ([0, 1, 2] : List Nat).flatMap fun s => ([2, 0, 1] : List Nat).flatMap (clientFlush s)
 
 def clientParked (rt : RT) : Bool :=
   match rt.client.pc with
